@@ -46,7 +46,10 @@ oer_decode(const asn_codec_ctx_t *opt_codec_ctx,
 ssize_t
 oer_open_type_skip(const void *bufptr, size_t size) {
     size_t len = 0;
-    return oer_fetch_length(bufptr, size, &len);
+    ssize_t len_len = oer_fetch_length(bufptr, size, &len);
+    if(len_len <= 0) return len_len;
+    if(len > size - len_len) return 0; /* More data expected */
+    return len_len + len; /* Skip the contents as well */
 }
 
 /*
